@@ -106,6 +106,127 @@ T = {
            'a refresh in flight plus a resolver update with a different address list before the replacement is READY: the old SubConn keeps the stale list'),
  'C20-2': ('C20', GRPCGCP, 'ResolverError publishes TRANSIENT_FAILURE and an error picker when no SubConn is READY',
            'a resolver error delivered while the whole pool is (re)connecting: calls fail instead of queueing'),
+ # ---- wave 2 (authors were told the wave-1 changes and asked for something different)
+ 'C01-3': ('C01', GRPCGCP, 'unbindSubConn(key, sc) removes the binding only if it points at the SubConn the UNBIND call travelled on',
+           'fallback on, K bound to A, A not READY, UNBIND(K) placed on fallback channel B completes OK: K stays bound and goes back to A when A recovers'),
+ 'C01-4': ('C01', GRPCGCP, 'bindSubConn keeps an existing binding only while its SubConn is READY (!ok || scStates[boundSC] != Ready)',
+           'K bound to A, A not READY, another BIND succeeds on B with a reply carrying K: K moves to B and stays there'),
+ 'C01-5': ('C01', GRPCGCP, 'fallbackMap lookup hoisted in front of the READY test of the bound SubConn in getReadySubConnRef',
+           'fallback on; K→A, A down, BOUND(K) creates fallback K→B, UNBIND(K) while A is down, A recovers, BIND on A returns K, BOUND(K) goes to B although A is READY'),
+ 'C02-3': ('C02', GRPCGCP, 'fallbackMap[key] served as a fast path before the affinityMap check in getReadySubConnRef',
+           'fallback on; key in fallback, successful UNBIND (fallback entry is not cleaned), later call with that now-unknown key is pinned to the old stand-in instead of the least-loaded channel'),
+ 'C02-4': ('C02', GRPCGCP, 'round-robin BIND branch calls streamsIncr only if ctx.Err() == nil, the completion callback still decrements',
+           'ROUND_ROBIN BIND whose context ends while waiting for a not-READY slot: count goes to -1 and never returns to zero'),
+ 'C02-5': ('C02', GRPCGCP, 'regeneratePicker builds the READY list in a reused balancer field (gb.readyRefs[:0])',
+           'a pick through a picker superseded by a regeneration that fits in the existing capacity (a channel flaps READY→TF→READY in a pool of 3): the old snapshot is rewritten in place'),
+ 'C03-3': ('C03', GRPCGCP, 'getLeastBusySubConnRef decides "pool full?" with len(p.scRefs) (READY channels of the picker) instead of the pool size',
+           'pool at maxSize with a non-READY channel (or a stale picker) and every READY channel at the watermark: the call is told to wait instead of being placed'),
+ 'C03-4': ('C03', GRPCGCP, 'initializeConfig clamps MinSize to MaxSize before the zero defaults are applied',
+           'minSize > 1 with maxSize unset (still 0 at the clamp): minSize becomes 0 then 1; pool starts with 1 channel'),
+ 'C03-5': ('C03', GRPCGCP, 'the swap runs delete(gb.refreshingScRefs, oldSc) instead of (…, sc)',
+           'a refresh completes and the refreshed channel later reconnects (READY→IDLE→CONNECTING→READY): the swap re-runs with oldSc == sc and removes the live connection'),
+ 'C04-3': ('C04', GRPCGCP, 'regeneratePicker keeps the current picker when it is an *errPicker and nothing is READY',
+           'TRANSIENT_FAILURE was published, then a connection starts connecting with nothing READY: CONNECTING is published with the fail-fast picker'),
+ 'C04-4': ('C04', GRPCGCP, 'refresh() registers the replacement in scStates as Idle, and the replacement branch is flattened to "found && s == Ready"',
+           'a replacement that reports CONNECTING before READY: it is counted, and the inherited state overwrites it without a decrement (phantom numConnecting)'),
+ 'C04-5': ('C04', GRPCGCP, 'gb.scStates[sc] = s moved after the Idle/Shutdown switch',
+           'a pool connection reports SHUTDOWN (entry deleted, then re-created) and later a late non-SHUTDOWN report arrives for it: counted although removed'),
+ 'C05-3': ('C05', GRPCGCP, 'the Shutdown case also removes the ref from gb.scRefList',
+           'ROUND_ROBIN BIND after every SubConn was shut down (stale picker + failing factory, or Shutdown of a refreshing SubConn at max size): rrRefId % 0'),
+ 'C05-4': ('C05', GRPCGCP, 'hasGCPCtx && (cmd == BOUND || cmd == UNBIND) lost its parentheses',
+           'an UNBIND method picked with a context without the interceptor value: gcpCtx.reqMsg through a nil pointer in Pick'),
+ 'C05-5': ('C05', GRPCGCP, 'unbindSubConn guards the decrement with the outer ok instead of the scRefs lookup result',
+           'key bound, its SubConn reports Shutdown, then an UNBIND for that key completes (in flight before, or via fallback): nil scRef dereferenced'),
+ 'C06-3': ('C06', GRPCGCP, '"narrow the picker lock": bound picks call getReadySubConnRef before p.mu, and its fallback branch takes p.mu under gb.mu',
+           'fallback pick (gb.mu→p.mu) concurrent with a saturated least-busy pick (p.mu→gb.mu): lock-order inversion deadlock'),
+ 'C06-4': ('C06', GRPCGCP, 'bindSubConn "SubConn is gone" branch calls gb.unbindSubConn while holding gb.mu',
+           'K bound to X, second BIND in flight on X, X shuts down, the second BIND completes with K: self-deadlock on gb.mu'),
+ 'C06-5': ('C06', GRPCGCP, 'maxSize re-check moved into addSubConn, which returns true ("not a failure") when the pool is full',
+           'minSize above the effective maxSize (e.g. MinSize 5, maxSize default 4): enforceMinSize spins forever holding gb.mu'),
+ 'C07-3': ('C07', GRPCGCP, 'the swap calls scRef.gotResp() instead of resetting deCalls and lastResp (refreshCnt++ kept)',
+           'two consecutive refreshes without a response in between: gotResp zeroes refreshCnt, k is capped at 1 and the 4x, 8x windows never apply'),
+ 'C07-4': ('C07', GRPCGCP, 'refresh() tests ref.refreshing before taking gb.mu and not again under it',
+           'several qualifying completions on one channel reach refresh() before the first gets the lock: several replacements for one channel'),
+ 'C07-5': ('C07', GRPCGCP, 'detection enabled when !(calls == 0 && ms == 0), i.e. calls > 0 || ms > 0',
+           'exactly one of the two thresholds configured: a single deadline-exceeded call (or elapsed time alone) triggers a refresh'),
+ 'C08-3': ('C08', GRPCGCP, 'a new fallback mapping is taken from the calling picker\'s own snapshot instead of gb.picker',
+           'a keyed pick through a stale picker after its least-busy channel failed: the key is mapped to a stand-in that already left READY'),
+ 'C08-4': ('C08', GRPCGCP, 'stand-in purge only when the new state is TransientFailure or Shutdown',
+           'stand-in leaves READY via IDLE (what a real SubConn reports on connection loss): fallback entries survive and the key stays on a non-READY channel'),
+ 'C08-5': ('C08', GRPCGCP, 'fallback-hit branch returns the mapped stand-in only if it is not refreshing, otherwise re-maps',
+           'refresh of the stand-in in flight while another READY channel is less busy: the key moves and does not come back'),
+ 'C09-3': ('C09', GRPCGCP, 'round-robin wait loop condition "!= Ready" became "< Ready"',
+           'the assigned slot in TRANSIENT_FAILURE (3 > Ready): the BIND call is handed a non-READY channel at once'),
+ 'C09-4': ('C09', GRPCGCP, 'the round-robin result is used only if its stream count is ≤ the watermark, otherwise least-busy pick',
+           'assigned channel holding more streams than the watermark: its turn goes to another channel (cursor already advanced)'),
+ 'C09-5': ('C09', GRPCGCP, 'single-exit refactor: loop condition gains ctx.Err() == nil and the return in the ctx.Done() case is removed',
+           'context ends while a writer holds gb.mu (slow UpdateClientConnState): the call must re-acquire the read lock before returning'),
+ 'C10-3': ('C10', GRPCGCP, 'getSubConnRoundRobin reads scRef.stateSignal in the select after RUnlock instead of a copy taken under the lock',
+           'ROUND_ROBIN BIND waiting on a not-READY slot concurrent with UpdateSubConnState for that SubConn (only -race shows it)'),
+ 'C10-4': ('C10', GRPCGCP, 'NewMultiEndpoint builds endpoints (starting recovery timers) before taking me.Lock',
+           'RecoveryTimeout of nanoseconds / many endpoints: a timer fires during construction (race on futureChange, nil map in maybeUpdateCurrent)'),
+ 'C10-5': ('C10', GRPCGCP, 'pickConn releases gme.mu right after the gme.mes lookup; gme.pools[me.Current()] is read unlocked',
+           'an RPC routed while UpdateMultiEndpoints adds or removes a pool: concurrent map read and write'),
+ 'C11-3': ('C11', GRPCGCP, 'FieldByName(strings.Title(seg)) replaced by FieldByNameFunc(EqualFold)',
+           'wrong-case locators, unexported field names, or two fields differing only in case'),
+ 'C11-4': ('C11', GRPCGCP, 'strings.Split(locator, ".") replaced by strings.FieldsFunc',
+           'a locator with a leading, trailing or doubled dot plus a resolving segment: empty segments are dropped instead of being an error'),
+ 'C11-5': ('C11', GRPCGCP, 'field index cached in a package-level sync.Map keyed by Type.String()+"."+name',
+           'two distinct struct types with the same Type.String() and different layouts, extracted one after the other'),
+ 'C12-3': ('C12', GRPCGCP, 'SendMsg holds the stream mutex (and defers the Broadcast) across the delegated underlying SendMsg',
+           'RecvMsg issued while a send is blocked inside the underlying SendMsg (deadlock if the send needs the client to consume a response)'),
+ 'C12-4': ('C12', GRPCGCP, 'unary interceptor returns ctx.Err() instead of the invoker\'s error when the context is done',
+           'the invoker returns a non-nil status error and the context is already cancelled/expired'),
+ 'C12-5': ('C12', GRPCGCP, 'helper withGCPContext returns the context unchanged if it already carries a *gcpContext',
+           'a nested call whose context derives from an intercepted enclosing call: the picker sees the outer call\'s messages'),
+ 'C13-3': ('C13', ME, 'SetEndpoints rebuilds the map and copies surviving endpoints by value',
+           'SetEndpoints during the current endpoint\'s recovery window: the pending timer marks the orphaned object, the copy stays recovering forever'),
+ 'C13-4': ('C13', ME, 'switchFromTo returns early when me.future == t.id ("already scheduled"); the timer clears me.future',
+           'delayed switch to A pending and the current endpoint becomes known-unavailable before the delay elapses: no immediate switch'),
+ 'C13-5': ('C13', ME, 'delayed-switch closure falls back to the captured target when me.endpoints[me.future] is missing',
+           'SetEndpoints drops the pending target before the delay elapses: Current() is set to an endpoint that is not in the list'),
+ 'C14-3': ('C14', ME, 'outdated-timer check e.lastChange != stateChange replaced by e.status != recovering',
+           'recovery timer expired but waiting for the mutex while "available" then "unavailable" reports are processed: the stale callback closes the new window'),
+ 'C14-4': ('C14', ME, '"switch already pending" early return on me.future == t.id; future cleared only when the timer actually switches',
+           'delayed switch scheduled, target goes down before the timer (no-op), later comes back: every later switch to it is swallowed'),
+ 'C14-5': ('C14', ME, 'SetEndpoints returns before maybeUpdateCurrent when the current endpoint is kept and not demoted',
+           'three endpoints, a replacement list that moves a lower available endpoint above the (index-preserved) current one: no switch is ever scheduled'),
+ 'C15-3': ('C15', GRPCGCP, 'UpdateMultiEndpoints skips me.SetEndpoints when the endpoints equal the last-applied slice (the caller\'s slice itself is remembered)',
+           'the caller edits its Endpoints slice in place and updates again: pools follow the new contents, the MultiEndpoint does not (nil pool dereference)'),
+ 'C15-4': ('C15', GRPCGCP, 'monitoredConn.notify uses TryRLock and drops the notification when UpdateMultiEndpoints holds the lock',
+           'a pool turns READY while an update holds the write lock, after the sync loop read its state: no MultiEndpoint ever learns it recovered'),
+ 'C15-5': ('C15', GRPCGCP, 'pickConn looks up the (possibly absent) context name directly: absent is treated as name ""',
+           'a non-default MultiEndpoint named "" plus a call without a name'),
+ 'C16-3': ('C16', GRPCGCP, 'the "remove obsolete pools" loop moved to a helper that is deferred right after validPools is built',
+           'an update whose dial fails and which also drops an endpoint in use: the rejected update still closes and deletes that pool'),
+ 'C16-4': ('C16', GRPCGCP, 'multiEndpoint.future becomes *endpoint; the delayed-switch timer uses it without looking it up in the table',
+           'pending switch to an endpoint that an accepted update removes within the delay: current becomes the removed endpoint, pickConn finds no pool'),
+ 'C16-5': ('C16', GRPCGCP, 'Close() returns early when len(gme.mes) == 0',
+           'construction failing at the 2nd or later dial: pools exist but no MultiEndpoint yet, the cleanup Close() does nothing'),
+ 'C17-3': ('C17', GRPCGCP, 'maxSize default applied when GetMaxSize() < GetMinSize() instead of == 0',
+           '0 < maxSize < minSize (e.g. min 3 / max 2): the supplied maxSize is replaced by 4'),
+ 'C17-4': ('C17', GRPCGCP, 'ParseConfig uses protojson.UnmarshalOptions{DiscardUnknown: true}',
+           'JSON with an unknown or misspelled field at any level is accepted and the setting silently dropped'),
+ 'C17-5': ('C17', GRPCGCP, 'the gcpConfig clone is taken in UpdateMultiEndpoints instead of the constructor',
+           'a later UpdateMultiEndpoints with a nil/different GRPCgcpConfig, then GCPConfig()'),
+ 'C18-4': ('C18', PROBER, 'parseT4T7Latency scans append(headers.Get(key), trailers.Get(key)...)',
+           'both present, the header\'s server-timing without a gfet4t7 entry and the trailer with one: the trailer is used as a fallback'),
+ 'C18-5': ('C18', PMAIN, 'qps check rewritten by De Morgan into ordered comparisons (*qps <= 0 || *qps > 1000 || …)',
+           '-qps=NaN exactly: every comparison is false, NaN accepted, interval = MinInt64'),
+ 'C18-6': ('C18', PROBER, 'resource URIs composed with path.Join instead of fmt.Sprintf',
+           'a project/instance/database that is "", "." or ".." (all match the validation regexes): segments collapse'),
+ 'C19-4': ('C19', CSUM, 'helper checksumPrefix(v) marshals the message a second time to compute the CRC',
+           'a message with a map field of ≥ 2 entries (non-deterministic map order): checksum and payload come from different encodings'),
+ 'C19-5': ('C19', CSUM, 'leading field-2047/fixed32 prefixes are stripped from the wrapped encoding before the CRC',
+           'a message whose own unknown fields begin with field 2047 wire type 5 (e.g. a relayed Empty): 6 payload bytes dropped'),
+ 'C19-6': ('C19', CSUM, 'log helper abbreviate(b) = append(b[:512], "..."...) called between the CRC and the final copy',
+           'a standard encoding of ≥ 515 bytes: payload bytes 512..514 overwritten in place'),
+ 'C20-3': ('C20', GRPCGCP, 'refresh() releases gb.mu around NewSubConn (addresses read into a local first)',
+           'a resolver update with a different list while refresh() is inside NewSubConn: the replacement is in no container and keeps the old list'),
+ 'C20-4': ('C20', GRPCGCP, 'ResolverError sets gb.addrs = nil under the lock',
+           'a resolver error followed by pool growth or a refresh before the next update: NewSubConn with an empty list'),
+ 'C20-5': ('C20', GRPCGCP, 'UpdateAddresses pushed only when a helper comparing list length and Addr strings reports a change',
+           'consecutive updates with identical Addr strings but different ServerName/Attributes'),
 }
 
 ENV = dict(os.environ, GOFLAGS='-mod=mod', GOPROXY='off', GOSUMDB='off', GOTOOLCHAIN='local')
